@@ -181,6 +181,13 @@ theorem flushWait_onlyItems (group : String) (s : St) (w : Wait.WState Id) (n0 :
     simp only [List.foldl_cons]
     exact OnlyItems.trans (onlyItems_one _ _ (.wait group e.1 (wevName e.2)) rfl trivial) (ih _)
 
+theorem deliverState_onlyItems (s : St) (d : Delivery) : OnlyItems s (deliverState s d) := by
+  unfold deliverState
+  simp only []
+  split
+  · exact onlyItems_one _ _ (.status d.id (kstatusName d.status)) rfl trivial
+  · exact onlyItems_of_eq _ _ rfl
+
 theorem deliverOne_onlyItems (group : String) (n : Nat) (ws : WaitSt) (d : Delivery) :
     OnlyItems ws.s (deliverOne group n ws d).1.s := by
   unfold deliverOne
@@ -191,10 +198,8 @@ theorem deliverOne_onlyItems (group : String) (n : Nat) (ws : WaitSt) (d : Deliv
     · exact onlyItems_of_eq _ _ rfl
     · split
       · exact onlyItems_of_eq _ _ rfl
-      · refine OnlyItems.trans ?_ (flushWait_onlyItems group _ _ _)
-        split
-        · exact onlyItems_one _ _ (.status d.id (kstatusName d.status)) rfl trivial
-        · exact onlyItems_of_eq _ _ rfl
+      · exact OnlyItems.trans (deliverState_onlyItems ws.s d)
+          (OnlyItems.trans (onlyItems_of_eq _ _ rfl) (flushWait_onlyItems group _ _ _))
 
 theorem deliverChain_onlyItems (group : String) (n : Nat) (ds : List Delivery) (ws : WaitSt) :
     OnlyItems ws.s (deliverChain group n ws ds).s := by
